@@ -59,6 +59,16 @@ CHECKS = {
        "handler calls, pending __close calls, and a post-error consistency battery after every caught error",
   note="bounded: nesting <=3-4, <=5-7 actions; raising message handlers and raising __close handlers under xpcall are not generated; error message wording beyond the position prefix is not compared",
   technique="TLA+ spec CloseStack.tla (ErrorFlow configs), TLC BFS + simulation, generated programs replayed on the real runtime (direction A)"),
+ "C04": dict(
+  level="exploration", ref="5 C04",
+  text="Limits.tla gives, for 27 program shapes parameterised by a size n (locals, upvalues, constants, list items before a multi-value tail, arguments, parameters, results, "
+       "forward/backward jump distance, function size, nesting of blocks / parentheses / tables / functions / ifs, __index and __call chains, recursion through pcall / tostring / "
+       "gsub / plain Lua, literal and identifier length, long-bracket level, unpack), the value the program must return if it is accepted; TLC enumerates every shape at sizes "
+       "around golua's encoding limits (255, 32767, 65535) and far beyond; the only allowed outcomes on the real pipeline are an ordinary compile/runtime error, a resource "
+       "termination, or that value - a Go panic, a process crash, a hang or a wrong value is a violation. Plain exploration in addition: every standard-library function x 40-400 "
+       "edge-value argument tuples, and seeded byte mutations of generated programs, with the oracle 'ordinary outcome'",
+  note="totality over all byte strings and all argument tuples is explored, not model-checked; only the limit shapes are decided by a specification",
+  technique="TLA+ spec Limits.tla (expected value per shape and size, enumerated by TLC) replayed on the real compiler and VM; library edge-value and byte-mutation exploration"),
  "C05": dict(
   level="model_checking", ref="5 C05-C07",
   text="real Lua programs (paths generated by TLC from the CloseStack/ErrorFlow/CoSem specs, 16 never-ending adversarial shells with pcall loops, xpcall handlers, "
@@ -129,6 +139,16 @@ CHECKS = {
        "seeded random operands; every determined result is compared bit-exactly with golua, with operands as literals and as runtime values",
   note="^ is checked by subtype only; float %, fmod and // only where determined; subnormals, NaN payloads and transcendental functions are not compared; open findings C02-1/2/3/5",
   technique="TLA+ specs LuaNum.tla + BigInt.tla evaluated by TLC over a lattice, laws checked on the spec, tabular comparison with the real runtime (direction A)"),
+ "C15": dict(
+  level="model_checking", ref="5 C15 and notes/C15.md",
+  text="TLC evaluates Pattern.tla (Lua 5.4 6.4.1: parser from characters to items or malformed; first-success backtracking matcher with greedy * + ?, lazy -, captures, position "
+       "captures, back-references, %b, %f, anchors; find/match/gmatch/gsub with init normalisation, the 5.4 empty-match rule, replacement expansion, function/table replacements and "
+       "the limit n) for every pattern of <= 3 tokens over a 28-token alphabet covering every construct (<= 4 tokens over 14) x every subject of <= 4 characters over {a,b,c} (plus "
+       "digit and punctuation slices) x every init in -len-1..len+2, plus random 5-7-token patterns; each case's battery of 21-39 calls runs through Lua on the real library under "
+       "pcall and is compared for equality (positions, captures, gsub result and count, gmatch sequence, error vs value); a Go panic or a hang is a violation; CPU clause relational: "
+       "pathological patterns must be killed under limits U/2, U/10, U/100 of their unlimited use and a failing scan must be charged in proportion to the subject",
+  note="calls whose result only the reference implementation fixes are recorded as observations; gmatch with '^', %1 in a replacement without captures and plain find are not compared; open findings C15-1..8",
+  technique="TLA+ spec Pattern.tla, TLC BFS sharded over 12 single-worker processes plus -simulate, tabular replay via lua-run (direction A)"),
  "C16": dict(
   level="model_checking", ref="5 C16 and notes/C16.md",
   text="NumFor.tla states the numeric for loop in two layers (the manual's progression with exact comparison against the unclipped limit, and the clipped-limit form with "
